@@ -790,6 +790,11 @@ impl World {
                 // noc.rs:479
                 let ca = (num(2) as usize).clamp(1, self.cas.len()) - 1;
                 let (fid, node, subj, serial) = (num(3), num(4), num(5), num(6));
+                // noc.rs `handle_add_noc`: a failed store of the resumption cache is retried first
+                let kv = self.matter.kv(self.kv.clone());
+                if let Err(e) = self.matter.with_state(|state| state.verif_retry_resumption_store(&kv)) {
+                    return code(&e);
+                }
                 if let Err(e) = self.check_armed(&mode) {
                     return code(&e);
                 }
@@ -1102,10 +1107,7 @@ impl World {
             "flush" => {
                 // lib.rs:712 `run_persist_resumption`
                 let kv = self.matter.kv(self.kv.clone());
-                self.matter.with_state(|state| {
-                    let p = state.verif_parts();
-                    st(kv.access(|mut store, buf| p.resumption.store_persist(&mut store, buf)))
-                })
+                self.matter.with_state(|state| st(state.verif_store_resumption(&kv)))
             }
             "restart" => {
                 let map = self.kv.0.borrow().map.clone();
